@@ -1524,17 +1524,22 @@ impl<D: AsyncDB, M: MakeConnection<Conn = D>> Runner<D, M> {
 
             match &record {
                 Record::Injected(Injected::BeginInclude(filename)) => {
+                    // nothing is executed after a `halt`, included files neither
+                    let halt = *halt;
                     let (outfilename, outfile) = create_outfile(filename)?;
                     stack.push(Item {
                         filename: filename.clone(),
                         outfilename,
                         outfile,
-                        halt: false,
+                        halt,
                     });
                 }
                 Record::Injected(Injected::EndInclude(_)) => {
                     override_with_outfile(filename, outfilename, outfile)?;
+                    // a `halt` in an included file stops the including file as well
+                    let halt = *halt;
                     stack.pop();
+                    stack.last_mut().unwrap().halt = halt;
                 }
                 _ => {
                     if *halt {
